@@ -167,6 +167,7 @@ Section Top.
       assert (L23 : le s2 s3) by (eapply mono_mapM; [intros; apply mono_clone_node, (proj1 HR)|exact E3]).
       assert (L3 : le s3 st').
       { revert H. apply mono_bind; [apply mono_mapM; intros; apply mono_get_mapped|intros outs].
+        apply mono_bind; [apply mono_check_passed|intros u0].
         apply mono_bind; [apply mono_mapM; intros; apply mono_value_name_of|intros keys].
         apply mono_bind; [apply mono_clone_dict|intros ops]. apply mono_bind; [apply mono_clone_dict|intros mp].
         apply mono_bind; [apply mono_clone_meta|intros me]. apply mono_alloc. }
